@@ -6,7 +6,7 @@ from facts import short, strip_generics, show_chain, walk_chain, chain_calls
 
 PROPERTY = "C21"
 TITLE = "Builds are reproducible"
-NEEDS = ("facts",)
+NEEDS = ("syn", "facts")
 TECHNIQUE = "static analysis: type-resolved inventory of hash-container iteration (hasher and key types from rustc), who-may-call on ambient inputs, call-graph reachability from main"
 EXPLANATION = (
     "Engine A (resolved callees + generic arguments from rustc): every iteration over a hash container in the 17 crates is "
@@ -260,11 +260,48 @@ def r21e(ctx, run):
                   "result's type and the bytes mutably: the padding between members holds stack garbage, so the same source gives different object bytes from run to run" % t.ln)
 
 
+def r21g(ctx, run):
+    """a comptime result that carries an address (slices, raw slices, `any`, aggregates with such members) puts a JIT address into the object file,
+    which differs from run to run (shared with C04 R04.a, which decides the same sites for their run-time meaning)"""
+    import c04
+
+    class Proxy:
+        def __init__(self, inner):
+            self.inner = inner
+
+        def __getattr__(self, n):
+            return getattr(self.inner, n)
+
+        def finding(self, function, descriptor, file, line, message, extra=None):
+            if descriptor.endswith("kind:String"):
+                # a top-level str is captured as an integer result (the pointer) - C04 lists it; its reproducibility is not decided here
+                self.inner.exempt("%s:%s" % (file, line), message[:120], "top-level str result: decided under C04 (R04.a); not claimed as a reproducibility defect")
+                return
+            self.inner.finding(function, descriptor, file, line, message, extra)
+
+        def check(self, cond, site, what, function, descriptor, file, line, message):
+            if cond:
+                self.inner.ok(site, what)
+            else:
+                self.finding(function, descriptor, file, line, message)
+            return cond
+    c04.r04a(ctx, Proxy(run))
+
+
+def r21f(ctx, run):
+    """the canonicalisation itself: zero_padding evaluated on sample layouts leaves no byte outside the value unwritten-through (shared with C04 R04.g);
+    R21.e only decides that it is applied"""
+    import c04
+    c04.r04g(ctx, run)
+
+
 def rules(ctx):
     return [
         Rule("R21.a", "every reachable hash-container iteration has a run-stable order (hasher, key type, container kind)", 30, r21a),
         Rule("R21.b", "ambient inputs only at enumerated sites; no address exposure", 1, r21b),
         Rule("R21.c", "Intern-keyed process-global caches are point-queried only", 6, r21c),
         Rule("R21.e", "bytes captured from JIT memory are canonicalised (padding) before they are embedded", 1, r21e),
+        Rule("R21.f", "the canonicalisation zeroes every byte that is not part of the value, for every sample layout (shared with C04 R04.g)", 13, r21f),
+        Rule("R21.g", "address-bearing comptime results are rejected or relocated: no JIT address reaches the object file (shared with C04 R04.a)", 15, r21g),
         Rule("R21.d", "every output file is replaced as a whole (no write-open without truncation, no append)", 1, r21d),
     ]
